@@ -498,6 +498,8 @@ pub struct Outcome {
 static REPLAY_SEQ: AtomicU64 = AtomicU64::new(0);
 /// panics that escaped a parallel job
 pub static JOB_PANICS: Mutex<Vec<String>> = Mutex::new(Vec::new());
+/// Panics of the crate under test while it processed a datagram handed to it through `craft::feed`.
+pub static FEED_PANICS: Mutex<Vec<String>> = Mutex::new(Vec::new());
 /// set by --no-evidence (sanitizer passes run the same engines without touching the evidence files)
 pub static NO_EVIDENCE: AtomicBool = AtomicBool::new(false);
 
@@ -528,6 +530,14 @@ pub fn finish(mut out: Outcome) -> i32 {
             if out.evidence.inconclusive.len() < 8 {
                 out.evidence.inconclusive.push(format!("harness error (panic in the harness itself): {p}"));
             }
+        }
+    }
+    // a panic of the crate under test while processing a datagram of the workload that no monitor turned into a finding
+    // (the caller ignored feed's error): still a crash of a node on an input the workload considers worth sending
+    if out.violations.is_empty() {
+        let fp: Vec<String> = FEED_PANICS.lock().unwrap().clone();
+        if let Some(p) = fp.first() {
+            out.violations.push((Finding::new(&[], "panic.code_under_test", format!("the crate under test panicked {} time(s) while processing datagrams of the {prop} workload (first: {p})", fp.len())), json!({"engine": "feed", "panic": p})));
         }
     }
     let mut shown = 0;
